@@ -75,6 +75,9 @@ def confirm(v, oracle):
             'what': '%s %s(%r) = %s, expected %s' % (v['fmt'], op, show(v['text']), json.dumps(strip_all(payload), ensure_ascii=False)[:140], json.dumps(want, ensure_ascii=False)[:100])}
 
 def key_of(v):
+    if v['fmt'] == 'han':
+        cls = c01.classify(v)
+        if not cls.startswith('other:'): return 'han:' + cls
     return '%s:%s:%s:%s:%s' % (v['fmt'], v['pipeline'], v['kind'], v['shape'].split('/')[0], c01.classify(v) if v['fmt'] == 'han' else v['pattern'].split(',')[0])
 
 def main(tier, seed):
@@ -83,7 +86,7 @@ def main(tier, seed):
     R.blocks = models_str.STD_BLOCKS if tier == 'quick' else None       # quick: names over Latin, CJK, fullwidth and pictograph blocks; thorough: all of Unicode
     quick = tier == 'quick'
     c01.load_keywords(R)
-    R.assumptions += ['tokens = atoms (prefix+name), brackets, separators, connecters, copulas, punctuation, whole stamps, truth/budget brackets, numbers and separators; no space is inserted inside an atom or inside a stamp',
+    R.assumptions += ['tokens = atoms (prefix+name), brackets, separators, connecters, copulas, punctuation, stamp brackets / kind marker / number, truth and budget brackets, numbers and separators; no space is inserted inside an atom',
                       'spacing patterns: none, 1 or 2 spaces at every boundary; thorough adds k in {1,3} spaces at each single boundary; lexical pipeline also tab/newline/U+3000 at every boundary',
                       'names: 1 symbolic well-formed char each (as C01)']
     shapes = c01.shape_list(tier)
